@@ -191,7 +191,7 @@ func parseParamValue(
 	input string, executeCommandSubstitution bool,
 ) ([]paramPair, error) {
 	paramRegex := regexp.MustCompile(
-		`(?:([^\s=]+)=)?("(?:\\"|[^"])*"|` + "`(" + `?:\\"|[^"]*)` + "`" + `|[^"\s]+)`,
+		`(?:([^\s="` + "`" + `]+)=)?("(?:\\"|[^"])*"|` + "`(" + `?:\\"|[^"]*)` + "`" + `|[^"\s]+)`,
 	)
 	matches := paramRegex.FindAllStringSubmatch(input, -1)
 
